@@ -22,6 +22,7 @@ type Config struct {
 	CapMax   bool   `json:"capacity_from_max"`
 	Alloc    string `json:"alloc"` // "go" | custom allocator behaviour: "exact" | "reserve" | "recycled" | "refusing"
 	Imported bool   `json:"imported"`
+	Shared   bool   `json:"shared,omitempty"` // threads proposal: shared memory (needs a declared max)
 }
 
 func (c Config) String() string {
@@ -32,6 +33,9 @@ func (c Config) String() string {
 	loc := "local"
 	if c.Imported {
 		loc = "imported"
+	}
+	if c.Shared {
+		loc += " shared"
 	}
 	return fmt.Sprintf("min=%d max=%s limit=%d capFromMax=%v alloc=%s %s", c.Min, mx, c.Limit, c.CapMax, c.Alloc, loc)
 }
@@ -70,7 +74,10 @@ func (c Config) GrowBound() uint32 {
 func (c Config) Accepted() bool { return c.Min <= c.Limit }
 
 // Huge: some reachable size (or the eager capacity) is a multi-GiB buffer.
-func (c Config) Huge() bool { return c.Accepted() && c.GrowBound() >= hugePages }
+// A shared memory is allocated with its maximum as capacity right away.
+func (c Config) Huge() bool {
+	return c.Accepted() && (c.GrowBound() >= hugePages || (c.Shared && c.Bound() >= hugePages))
+}
 
 var alphabet = []uint32{0, 1, 2, 3, 65535, 65536}
 
@@ -93,6 +100,13 @@ func allConfigs() []Config {
 					for _, al := range allocKinds {
 						for _, imp := range []bool{false, true} {
 							out = append(out, Config{Min: mn, Max: mx, HasMax: has, Limit: lim, CapMax: cm, Alloc: al, Imported: imp})
+						}
+						// shared twin: needs a declared maximum and an allocator that never moves the buffer
+						// (the "exact" behaviour, cap == len, cannot back a shared memory by contract)
+						if has && al != "exact" {
+							for _, imp := range []bool{false, true} {
+								out = append(out, Config{Min: mn, Max: mx, HasMax: has, Limit: lim, CapMax: cm, Alloc: al, Imported: imp, Shared: true})
+							}
 						}
 					}
 				}
